@@ -12,8 +12,9 @@ Executable model (core Lean only) of
                                    `statusForGraphQLResponse` (http_get.go)
 * `graphql/errcode/codes.go`       `GetErrorKind`
 * `graphql/executor/executor.go`   `CreateOperationContext` / `parseQuery` as the *gate*: the order in which
-                                   parameter mutators, parsing, validation, operation lookup and variable
-                                   coercion can stop a request, and the error code each one stamps
+                                   parameter mutators, parsing, validation, operation lookup, variable
+                                   coercion and operation-context mutators can stop a request; the error code
+                                   of each exit is the REGENERATED `stamp…` (the code on the value returned)
 * gqlparser `ast.OperationList.ForName`
 
 The tables (`statusFor…`, `codeType`, the cases of `determineResponseContentType`, the GET guard) are NOT
@@ -86,6 +87,12 @@ structure Req where
   opName : String
   varsOk : Bool
   execErr : Bool
+  /-- the parser's error is a PLAIN error, not a `*gqlerror.Error` (`exceeded token limit`, a server with
+      `SetParserTokenLimit`); read only when `doc = .parseErr` -/
+  parsePlain : Bool := false
+  /-- an `OperationContextMutator` (complexity limit, …) stops the request after validation and variable
+      coercion: `some code?` -/
+  ctxErr : Option (Option String) := none
   deriving Repr
 
 inductive Body | empty | errors | data | bad
@@ -133,7 +140,10 @@ def acceptLoop : List (Option String) → String
   | some mt :: rest =>
     match caseFor mt ctCases with
     | some r => r
-    | none => acceptLoop rest
+    | none =>
+      match ctSwitchDefault with               -- a `default:` arm of the switch answers here
+      | some d => d
+      | none => acceptLoop rest
 
 /-- `determineResponseContentType(h.ResponseHeaders, r)` -/
 def determineCT (explicit : Option String) (accept : Option (List (Option String))) : String :=
@@ -155,14 +165,20 @@ def gate (r : Req) : GateOut :=
   match r.paramErr with
   | some code => .err [code]
   | none =>
+    -- the code of each exit is the one the error value the exit RETURNS carries (`Gen/HttpStatus.lean`, stamps)
     match r.doc with
-    | .parseErr => .err [some ParseFailed]
-    | .invalid => .err [some ValidationFailed]
-    | .ops [] => .err [some ValidationFailed]            -- "no operation provided"
+    | .parseErr => .err [if r.parsePlain then stampParsePlain else stampParseGql]
+    | .invalid => .err [stampInvalid]
+    | .ops [] => .err [stampNoOperation]                 -- "no operation provided"
     | .ops l =>
       match forName l r.opName with
-      | none => .err [some ValidationFailed]             -- "operation … not found"
-      | some op => if r.varsOk then .ok op else .err [some ValidationFailed]
+      | none => .err [stampOpNotFound]                   -- "operation … not found"
+      | some op =>
+        if r.varsOk then
+          (match r.ctxErr with
+           | some code => .err [code]                    -- an OperationContextMutator refuses
+           | none => .ok op)
+        else .err [stampVariables]
 
 /-! ## transports -/
 
